@@ -167,6 +167,8 @@ def recover_and_rest(R, env, prog, sites):
             good = len(vals) == 1 and vals[0][0] == "agg" and vals[0][2] == "Some" and is_reward(prog, vals[0][3][0][2])
             R.ob("C02.R5", "ReceiveUnstakedTokens:received-amount", good, "received_native_unstaked := %s; expected Some(amount of the ibc-denom coin in info.funds)" % [fmt(v)[:120] for v in vals], loc=op["loc"], fn=hk)
     R.floor("C02.R5", "BATCHES writes in ReceiveUnstakedTokens", n, 1)
+    allw = [(ns_of(prog, o["args"][0]), o["op"]) for o in storage_ops_deep(prog, h, env.depth) if o["kind"] == "w"]
+    R.ob("C02.R5", "ReceiveUnstakedTokens:write-set", allw == [("batches", "save")], "storage writes %s; expected only the batch save (tokens delivered for a batch are owed to its requesters, not to any other account or counter)" % allw, fn=hk)
 
     # ------------------------------------------------------------ R6 who may pay
     nsite = 0
